@@ -408,6 +408,25 @@ cores → mem → vmem → procs, from the normalised request: `ceil(Threads*100
 `procsPerJob + (centiCores+99)/100`. -/
 def procsPerJob : Int := 15
 
+/-- The sizes `setupSemaphores` gives the semaphores that exist, in acquisition
+order: cores, memory, vmem only with `maxVmemMB > 0` (`--localvmem` / `ulimit -v`),
+processes only when the rlimit could be read and exceeds `startingThreadCount`
+— then with the size that is left for jobs, `rlimMax - startingThreadCount`,
+because `setupSemaphores` acquires `startingThreadCount` for mrp itself and never
+releases it (`Props.C12.standing_reservation_is_a_smaller_semaphore`). -/
+def localSizes (c : LocalCfg) (procsLeft : Option Int) : List Int :=
+  [c.maxCores * 100, c.maxMemGB * 1024] ++ (if 0 < c.maxVmemMB then [c.maxVmemMB] else []) ++
+    procsLeft.toList
+
+/-- the amounts `Enqueue` acquires on the semaphores that exist -/
+def localAmounts (c : LocalCfg) (hasProcs : Bool) (a : Int × Int × Int × Int) : List Int :=
+  [a.1, a.2.1] ++ (if 0 < c.maxVmemMB then [a.2.2.1] else []) ++ (if hasProcs then [a.2.2.2] else [])
+
+/-- decidable form of `Sane` for the driver -/
+def saneB (c : LocalCfg) : Bool :=
+  decide (1 ≤ c.maxCores) && decide (1 ≤ c.maxMemGB) && decide (1 ≤ c.threadsPerJob) &&
+    decide (1 ≤ c.memGBPerJob) && decide (0 ≤ c.extraVmemGB)
+
 def acquireAmounts (r : Req) : Int × Int × Int × Int :=
   (r.centi, r.memMb, Int.tdiv r.vmemMb 1024 * 1024, procsPerJob + Int.tdiv (r.centi + 99) 100)
 
